@@ -21,6 +21,8 @@ use xor_name::XorName;
 pub struct RigCfg {
     pub max_records: usize,
     pub cache_size: usize,
+    /// None = the node's default (MAX_PACKET_SIZE)
+    pub max_value_bytes: Option<usize>,
 }
 
 pub struct StoreRig {
@@ -66,6 +68,7 @@ fn store_cfg(root: &Path, cfg: &RigCfg, peer: PeerId) -> NodeRecordStoreConfig {
         max_records: cfg.max_records,
         records_cache_size: cfg.cache_size,
         encryption_seed: seed,
+        max_value_bytes: cfg.max_value_bytes.unwrap_or(NodeRecordStoreConfig::default().max_value_bytes),
         ..Default::default()
     }
 }
